@@ -295,9 +295,9 @@ func init() {
 		CaseTimeout: 180e9,
 		Run: func(c *h.Ctx) {
 			po := PlayOpts{
-				Hands: 8 + c.R.Intn(10),
-				Churn: Churn{BetweenP: 0.5, Rebuy: true, BuyIn: true, Leave: true, RandomSeat: true, ResumePaused: true, SitOut: true, Batch: true},
-				Gen:   h.GenOpts{MinSeats: 2, Rules: []string{"default"}, ShortStacks: c.R.Intn(2) == 0},
+				Hands:    8 + c.R.Intn(10),
+				Churn:    Churn{BetweenP: 0.5, Rebuy: true, BuyIn: true, Leave: true, RandomSeat: true, ResumePaused: true, SitOut: true, Batch: true},
+				Gen:      h.GenOpts{MinSeats: 2, Rules: []string{"default"}, ShortStacks: c.R.Intn(2) == 0},
 				Policies: []string{"maniac", "callstation", "random", "nit"},
 			}
 			switch c.Case % 4 {
